@@ -1,4 +1,209 @@
-From Verif Require Import Common.Base C02.Model.
-Theorem init_reachable : forall c, reachable c init.
-Proof. exact (fun c => ex_intro _ [] (conj (Forall_nil _) eq_refl)). Qed.
-Print Assumptions init_reachable.
+(* C02/Properties.v — the property theorems, nothing else.  Each is closed by [exact lemma] and followed by
+   Print Assumptions.  [reachable c s]: s is reached from the empty queue by ANY finite sequence of atomic
+   sections (labels) of any number of producers, consumers, completions, cancellations and a shutdown —
+   i.e. every interleaving; sizes are arbitrary integers (in-memory) / arbitrary non-negative (persistent). *)
+From Verif Require Import Common.Base C02.Model C02.Proofs C02.Proofs2 C02.Proofs3 C02.Proofs4 C02.Proofs5.
+Local Open Scope Z_scope.
+
+(* --- reported size -------------------------------------------------------------------------------------- *)
+(* in-memory queue: Size() = summed size of accepted-but-unfinished requests, and 0 <= Size() <= capacity *)
+Theorem mq_size_exact : forall c s,
+  0 <= cap c -> kind c = Mem -> reachable c s ->
+  size s = sum_sz (items s ++ inflight s) /\ 0 <= size s <= cap c.
+Proof. exact mq_size_exact_l. Qed.
+
+(* both queues: never negative, never above the capacity, zero once every accepted request has finished
+   (the persistent queue may under-count while requests are in flight: see Witness.pq_size_undercounts) *)
+Theorem pq_size_bounds : forall c s,
+  0 <= cap c -> reachable c s ->
+  0 <= size s <= cap c /\ size s <= sum_sz (items s ++ inflight s) /\
+  (items s = [] -> inflight s = [] -> size s = 0).
+Proof. exact pq_size_bounds_l. Qed.
+
+(* --- refusal rule ---------------------------------------------------------------------------------------- *)
+(* an Offer of a valid non-empty request is turned away (refused, or parked when block_on_overflow) exactly
+   when reported size + request size > capacity, and enqueued exactly otherwise; refused => nothing changes *)
+Theorem offer_refused_iff : forall c s p sz s' z,
+  0 <= cap c -> reachable c s -> (kind c = Mem -> 0 < sz) ->
+  step c s (LOffer p sz) = Some (s', z) ->
+  ((z = c_full \/ z = c_toolarge \/ z = c_blocked) <-> size s + sz > cap c) /\
+  ((z = c_enq \/ z = c_await) <-> size s + sz <= cap c) /\
+  (z = c_full -> blocking c = false) /\
+  (z = c_blocked -> blocking c = true /\ (kind c = Mem -> sz <= cap c)) /\
+  (z = c_toolarge -> kind c = Mem /\ sz > cap c) /\
+  (z = c_await <-> (size s + sz <= cap c /\ wfr_eff c = true)) /\
+  ((z = c_enq \/ z = c_await) ->
+     acc s' = acc s ++ [p] /\ items s' = items s ++ [(p, sz)] /\ size s' = size s + sz) /\
+  (~ (z = c_enq \/ z = c_await) -> acc s' = acc s /\ items s' = items s /\ size s' = size s).
+Proof.
+  exact (fun c s p sz s' z Hc R Hm H =>
+           offer_refused_iff_l c s p sz s' z (proj1 (proj1 (pq_size_bounds_l c s Hc R))) Hm H).
+Qed.
+
+(* in-memory queue: an empty request is acknowledged and ignored, a negative size is invalid *)
+Theorem offer_degenerate : forall c s p sz s' z,
+  kind c = Mem -> sz <= 0 -> step c s (LOffer p sz) = Some (s', z) ->
+  (sz = 0 -> z = c_zero /\ pget p (prods s') = Some (PRet ROk)) /\
+  (sz < 0 -> z = c_invalid /\ pget p (prods s') = Some (PRet RInvalid)) /\
+  acc s' = acc s /\ items s' = items s /\ size s' = size s /\ hand s' = hand s.
+Proof. exact offer_degenerate_l. Qed.
+
+(* a blocked producer that received a wake-up token is admitted exactly when its request fits now *)
+Theorem relock_admitted_iff : forall c s p s' z sz,
+  blocking c = true -> pget p (prods s) = Some (PLeftTok sz) ->
+  step c s (LRelockTok p) = Some (s', z) ->
+  ((z = c_enq \/ z = c_await) <-> size s + sz <= cap c) /\
+  (z = c_blocked <-> size s + sz > cap c) /\
+  ((z = c_enq \/ z = c_await) -> acc s' = acc s ++ [p] /\ size s' = size s + sz) /\
+  (z = c_blocked -> acc s' = acc s /\ size s' = size s /\ pget p (prods s') = Some (PInSelect sz)).
+Proof. exact relock_admitted_iff_l. Qed.
+
+(* --- hand-off ---------------------------------------------------------------------------------------------- *)
+(* acc = ids in enqueue order, hand = ids in the order of the Read sections, fin = completions.
+   No id is handed twice; only accepted ids are handed; refused / still blocked / timed-out producers' ids are
+   never handed; each request completes at most once and only after its hand-off; every handed id is finished
+   or in flight; finished, in-flight and queued ids are pairwise disjoint. *)
+Theorem handoff_exactly_once : forall c s,
+  0 <= cap c -> reachable c s ->
+  NoDup (hand s) /\
+  (forall id, In id (hand s) -> In id (acc s)) /\
+  (forall id, In id (acc s) -> In id (hand s) \/ In id (map fst (items s))) /\
+  (forall p r, pget p (prods s) = Some (PRet r) -> refused_result r = true -> ~ In p (acc s) /\ ~ In p (hand s)) /\
+  (forall p sz, pget p (prods s) = Some (PInSelect sz) \/ pget p (prods s) = Some (PLeftTok sz) \/
+                pget p (prods s) = Some (PLeftCtx sz) -> ~ In p (hand s)) /\
+  (wfr_eff c = false -> forall p, pget p (prods s) = Some (PRet RCtx) -> ~ In p (hand s)) /\
+  NoDup (map fst (fin s)) /\
+  (forall id, In id (map fst (fin s)) -> In id (hand s)) /\
+  (forall id, In id (hand s) -> In id (map fst (fin s)) \/ In id (map fst (inflight s))) /\
+  NoDup (map fst (fin s) ++ map fst (inflight s) ++ map fst (items s)).
+Proof. exact handoff_exactly_once_l. Qed.
+
+(* hand-off order = acceptance order, for any number of consumers (with one consumer this is the order in
+   which the consumer function starts): what was handed over, followed by what is queued, is what was accepted *)
+Theorem handoff_fifo : forall c s,
+  0 <= cap c -> reachable c s -> hand s ++ map fst (items s) = acc s.
+Proof. exact handoff_fifo_l. Qed.
+
+(* every accepted request IS handed over: a Read is enabled whenever something is queued, the mutex is free
+   and (persistent queue) the queue is running, and it returns the head; with nothing queued hand = acc *)
+Theorem handoff_complete : forall c s,
+  0 <= cap c -> reachable c s ->
+  (items s = [] -> hand s = acc s) /\
+  (forall p sz r, items s = (p, sz) :: r -> lock s = Free -> (kind c = Pers -> stopped s = false) ->
+     exists s', step c s LRead = Some (s', 10 + Z.of_nat p) /\ hand s' = hand s ++ [p] /\ items s' = r).
+Proof.
+  exact (fun c s Hc R => conj (handoff_complete_l c s Hc R) (fun p sz r => read_enabled_l c s p sz r)).
+Qed.
+
+(* --- the context-aware condition variable --------------------------------------------------------------------- *)
+(* #(threads inside select) + #(left on ctx, not yet re-locked) = waiting + len(ch) + [a Signal is blocked] *)
+Theorem cond_token_invariant : forall c s,
+  reachable c s ->
+  cnt is_insel (prods s) + cnt is_leftctx (prods s) = waiting s + b2z (tok s) + sb s /\ 0 <= waiting s.
+Proof. exact cond_token_invariant_l. Qed.
+
+(* the `<-c.ch` of a cancelled waiter that finds waiting = 0 never blocks: it returns the context error *)
+Theorem cancelled_waiter_reclaims : forall c s p s' z,
+  reachable c s -> step c s (LRelockCtx p) = Some (s', z) ->
+  z = c_ctx /\ pget p (prods s') = Some (PRet RCtx) /\ lock s' = Free.
+Proof. exact cancelled_waiter_reclaims_l. Qed.
+
+(* --- no lost wake-up ------------------------------------------------------------------------------------------- *)
+(* FULL statement: Model.no_lost_wakeup_statement c :=
+     forall s, reachable c s -> quiescent c s -> all_returned s.
+   It is FALSE of the code as written (finding F3), for both queue kinds, with requests that all fit: *)
+Theorem no_lost_wakeup_refuted :
+  forall k, exists c, kind c = k /\ 0 < cap c /\ ~ no_lost_wakeup_statement c.
+Proof. exact no_lost_wakeup_statement_refuted_l. Qed.
+
+(* the F3 witness in detail: a reachable quiescent state in which a Signal is blocked on the full channel with
+   the mutex held, two cancelled producers never return their context error, an accepted request is never
+   handed over, and no Offer / Read / Shutdown can ever start again *)
+Theorem no_lost_wakeup_refuted_witness :
+  forall k, exists c s,
+    kind c = k /\ 0 < cap c /\ reachable_fit c s /\ quiescent c s /\
+    size s = 1 /\ items s = [(2%nat, 1)] /\ inflight s = [] /\
+    lock s = BSend PendNone /\ tok s = true /\ waiting s = 0 /\
+    (forall p, p = 3%nat \/ p = 4%nat -> In p (cancelled s) /\ pget p (prods s) = Some (PLeftCtx 1)) /\
+    ~ all_returned s /\
+    (forall p sz, step c s (LOffer p sz) = None) /\ step c s LRead = None /\ step c s LShutdown = None.
+Proof. exact no_lost_wakeup_refuted_l. Qed.
+
+(* PARTIAL (what holds): on runs without an oversized request on a persistent queue (S1) and outside the F3
+   deadlock (the mutex is free), a quiescent state has NO producer left inside Offer: nobody stays blocked —
+   with or without space, cancelled (they returned the context error) or not, waiting for a result or not. *)
+Theorem no_lost_wakeup_partial : forall c s,
+  0 <= cap c -> reachable_fit c s -> quiescent c s -> lock s = Free -> all_returned s.
+Proof. exact no_lost_wakeup_partial_l. Qed.
+
+(* ... and every quiescent state whose mutex is not free has exactly the F3 shape: a blocked Signal, a full
+   channel, nobody left inside the select, and waiting + 2 >= 2 producers that left on their context *)
+Theorem deadlock_shape : forall c s,
+  0 <= cap c -> reachable c s -> quiescent c s -> lock s <> Free ->
+  (exists k, lock s = BSend k) /\ tok s = true /\ cnt is_insel (prods s) = 0 /\
+  cnt is_leftctx (prods s) = waiting s + 2 /\ 0 <= waiting s.
+Proof. exact deadlock_shape_l. Qed.
+
+(* S1: without the size restriction the statement fails even with the mutex free: a persistent queue parks an
+   oversized request for ever on an empty queue (the in-memory queue refuses it, offer_refused_iff) *)
+Theorem blocked_on_empty_queue_refuted :
+  exists c s, kind c = Pers /\ 0 < cap c /\ reachable c s /\ quiescent c s /\ lock s = Free /\
+    size s = 0 /\ items s = [] /\ inflight s = [] /\ acc s = [] /\
+    pget 0%nat (prods s) = Some (PInSelect 2) /\ ~ In 0%nat (cancelled s) /\ ~ all_returned s.
+Proof. exact blocked_on_empty_queue_refuted_l. Qed.
+
+(* released when space: safety form.  (1) in every reachable S1-free state, producers still counted in
+   `waiting` never sit on an empty queue unless a wake-up is on its way (token in the channel or a woken
+   producer about to re-lock); (2) every OnDone issued while somebody is counted leaves a token; (3) a token
+   lets any producer inside the select proceed to its re-check (relock_admitted_iff says what it decides).
+   The fairness-based liveness corollary is not proved (NOTES.md). *)
+Theorem released_when_space_partial : forall c s,
+  0 <= cap c -> reachable_fit c s ->
+  (0 < waiting s -> 0 < size s \/ tok s = true \/ 0 < cnt is_lefttok (prods s)) /\
+  (forall id e s' z, step c s (LDone id e) = Some (s', z) -> 0 < waiting s ->
+     tok s' = true /\ waiting s' = waiting s - 1) /\
+  (forall p sz, pget p (prods s) = Some (PInSelect sz) -> tok s = true ->
+     exists s', step c s (LSelTok p) = Some (s', 0) /\ pget p (prods s') = Some (PLeftTok sz)).
+Proof.
+  exact (fun c s Hc R =>
+    conj (proj2 (proj2 (proj2 (reach_fit_inv c s Hc R))))
+      (conj (fun id e s' z => done_signals_l c s id e s' z)
+            (fun p sz => token_lets_waiter_proceed_l c s p sz))).
+Qed.
+
+(* --- wait for result / context errors ---------------------------------------------------------------------------- *)
+(* a producer that got a result got the error of the unique completion of ITS OWN request; a producer that
+   returned a context error had its context ended *)
+Theorem wait_for_result_own_outcome : forall c s p,
+  0 <= cap c -> reachable c s ->
+  (forall e, pget p (prods s) = Some (PRet (RRes e)) ->
+     In (p, e) (fin s) /\ forall e', In (p, e') (fin s) -> e' = e) /\
+  (pget p (prods s) = Some (PRet RCtx) -> In p (cancelled s)).
+Proof. exact wait_for_result_own_outcome_l. Qed.
+
+(* a producer waiting for its result always has its request queued, in flight, finished with the result
+   waiting in its channel, or finished by an OnDone that is blocked in Signal (F3 again) *)
+Theorem awaiting_producer_is_tracked : forall c s p,
+  0 <= cap c -> reachable c s -> pget p (prods s) = Some PAwait ->
+  In p (map fst (items s)) \/ In p (map fst (inflight s)) \/ In p (map fst (results s)) \/
+  exists e, lock s = BSend (PendRes p e).
+Proof. exact (fun c s p Hc R => reach_awaitinv c s Hc R p). Qed.
+
+Print Assumptions mq_size_exact.
+Print Assumptions pq_size_bounds.
+Print Assumptions offer_refused_iff.
+Print Assumptions offer_degenerate.
+Print Assumptions relock_admitted_iff.
+Print Assumptions handoff_exactly_once.
+Print Assumptions handoff_fifo.
+Print Assumptions handoff_complete.
+Print Assumptions cond_token_invariant.
+Print Assumptions cancelled_waiter_reclaims.
+Print Assumptions no_lost_wakeup_refuted.
+Print Assumptions no_lost_wakeup_refuted_witness.
+Print Assumptions no_lost_wakeup_partial.
+Print Assumptions deadlock_shape.
+Print Assumptions blocked_on_empty_queue_refuted.
+Print Assumptions released_when_space_partial.
+Print Assumptions wait_for_result_own_outcome.
+Print Assumptions awaiting_producer_is_tracked.
